@@ -299,13 +299,28 @@ theorem endpoint_registration_checks_closed :
 theorem endpoint_close_releases_every_waiter (e : Ep) (h : e.closed = false) :
     (∀ t, e.close.tabs t = []) ∧ (∀ w t, w ∈ e.tabs t → w ∈ e.close.woken) ∧
       ∀ w, e.close.pollIncoming .endpointStatePollIncoming w = (e.close, .none) :=
-  ⟨(close_open e h).1, (close_open e h).2.2.2, fun w => poll_after_close _ (close_sets_closed e) w⟩
+  ⟨(close_open e h).1, (close_open e h).2.2.2.1, fun w => poll_after_close _ (close_sets_closed e) w⟩
 
 /-- for every history: once the endpoint is closed nobody is parked in `incoming_wakers`, whether or not the worker
     loop ever runs again -/
 theorem closed_endpoint_has_no_parked_waiter (ops : List EOp) (h : (Ep.init.run ops).closed = true) :
     ∀ t, (Ep.init.run ops).tabs t = [] :=
-  einv_run ops Ep.init einv_init h
+  (einv_run ops Ep.init einv_init h).1
+
+/-- `EndpointState::new_connection` — the one place where `connect` AND `Incoming::accept` register a connection —
+    hands a connection created after `Endpoint::close` was requested the `ConnectionEvent::Close` the others got:
+    it is born closed -/
+theorem connection_created_on_closed_endpoint_is_born_closed :
+    newConnectionBornClosedWhenClosed = true := by decide
+
+/-- for every history (in particular `wait_incoming → close → accept`): on a closed endpoint EVERY registered
+    connection has been told to close — those alive at `close()` by `close()`, later ones at birth -/
+theorem closed_endpoint_has_told_every_connection (ops : List EOp) (h : (Ep.init.run ops).closed = true) :
+    (Ep.init.run ops).untold = 0 :=
+  (einv_run ops Ep.init einv_init h).2
+
+example : (Ep.init.run [.datagram true, .poll 1, .close, .newConn]).told = 1 ∧
+    (Ep.init.run [.newConn, .newConn, .close, .newConn]).told = 3 := by decide
 
 example : (Ep.init.run [.poll 1, .poll 2, .datagram true, .poll 3, .close]).woken = [1, 2] ∧
     (Ep.init.run [.poll 1, .poll 2, .datagram true]).tabs .incomingWakers = [2] := by decide
